@@ -24,7 +24,7 @@ ASSUMPTIONS = ["no whitespace inside fields; bracket formats: no parentheses ins
 SRC = ["export", "brackets", "discobrackets", "tigerxml"]
 DEST = ["export", "brackets", "discobrackets", "tigerxml", "terminals"]
 RANK = {"export4": 3, "tigerxml": 3, "export": 2, "brackets": 1, "discobrackets": 1, "terminals": 0}
-WORDS_U = ["#2020", "#12", "#100x", "der", "Hund", "bellt", "a", "x<y", "R&D", "\"q\"", "it's", "straße", "été", "1990", "x=y", "Ärger"]
+WORDS_U = ["%%", "%%%x", "%", "#2020", "#12", "#100x", "der", "Hund", "bellt", "a", "x<y", "R&D", "\"q\"", "it's", "straße", "été", "1990", "x=y", "Ärger"]
 WORDS_X = WORDS_U + ["日本", "ż"]
 
 
